@@ -286,3 +286,19 @@ CLAIMS["C03"] = {
     "technique": "static analysis: exactly-once path counting, who-may-call, symbolic inlining of straight-line provenance, "
                  "linear normal forms",
 }
+
+CLAIMS["C02"] = {
+    "text": "Narrow claim: decides the solver's structural core invariant and nothing about its choice logic — in every "
+            "statement block of TimeReversedSolver each tableau transformation is mirrored by its inverse (computed in a finite "
+            "Clifford model for one-qubit gate lists; same control/target modulo the helper's index convention for CNOTs) "
+            "inserted at the front of the same wire; _change_pauli_type's lists are inserted on the transformed qubit; the "
+            "time-reversed measurement is the one frozen triple; _add_gates_from_str applies each tag's own gate and handles every "
+            "tag inverse_circuit emits; insertions are at the front with the emission CNOT first on its wire; the result is "
+            "(metric(compile(circuit)), copy) with validate() first. Does not decide that the choice logic reaches |0..0> for "
+            "every graph, exactness of the generated state, or outcome independence.",
+    "ref": "DESIGN.md §5.2",
+    "note": "Trusted: the three primitive gate updates, rref / height choice logic, inverse_circuit (C11), compilers (C01). "
+            "One frozen pattern (time-reversed measurement) with its reason in DESIGN §5.2.",
+    "technique": "static analysis: per-block event pairing with a finite-group inverse check, linear normal forms for index "
+                 "conventions, vocabulary inclusion, front-insertion and statement-order checks",
+}
